@@ -63,13 +63,13 @@ CHECKS["C17"] = {
           "Stats, RenameKind, Style, HistoryEntry on every run and its verdict is re-decided by the kernel; with the repo fix "
           "7e5290d the verdict is true and plan_roundtrip holds for every plan. Model compared with real serde_json on "
           "generated Plan/HistoryEntry values built field by field; CLI: plan -> apply <saved file> vs rename -y, undo/redo "
-          "of the stored copy.",
+          "of the stored copy. Loaders: the translator lists every site that parses a Plan/History from disk and every rejection depending on the parsed value (Gen.loaderSites / loaderConditions); plan_load_roundtrip_all holds because there is none (loadersPlain_is_true) and stops compiling when one appears; the CLI load matrix reads what plan / rename / replace wrote back through status, apply <file>, default apply, history, undo, redo.",
   "design_ref": "DESIGN.md section 4, C17",
   "technique": "Lean 4 proof (mutual structural induction over a nested schema type) + generated schema + differential correspondence with serde_json + CLI save/load oracle",
   "note": TB + "serde_json string escaping/number formatting (documents compared after decoding); serde derive semantics for the "
           "attribute kinds that occur (any other attribute makes the translator fail loudly); non-UTF-8 paths are refused by the "
           "serialiser (guard clause, probed on the CLI); HashMap key order ignored; 'reloaded plan => same apply effect' is "
-          "congruence plus the CLI tree comparison.",
+          "congruence plus the CLI tree comparison. Loader analysis is syntactic (`if … return Err / bail! / ensure!` mentioning the loaded variable or a `let` derived from it, in the parsing function and in the callers of a loader helper); a condition hidden behind further indirection is left to the CLI matrix; `apply <id>` of a stored copy is not exercised on the CLI (refused by design once the id is in history).",
 }
 CHECKS["C09"] = {
   "text": "Theorems over the walker configuration, file tests, binary flag, glob rule and sniff tables REGENERATED from "
